@@ -233,3 +233,39 @@ func (n *Node) Int() int {
 	}
 	return v
 }
+
+// CoqTerm renders the node as a Gallina term of type Base.sexp (atoms as s2b "..." when
+// printable ASCII without a double quote, as a list of byte values otherwise).
+func (n *Node) CoqTerm(sb *strings.Builder) {
+	if n.IsAtom {
+		plain := true
+		for i := 0; i < len(n.Atom); i++ {
+			c := n.Atom[i]
+			if c < 32 || c > 126 || c == '"' {
+				plain = false
+				break
+			}
+		}
+		if plain {
+			sb.WriteString("Atom (s2b \"" + n.Atom + "\")")
+			return
+		}
+		sb.WriteString("Atom [")
+		for i := 0; i < len(n.Atom); i++ {
+			if i > 0 {
+				sb.WriteByte(';')
+			}
+			sb.WriteString(strconv.Itoa(int(n.Atom[i])))
+		}
+		sb.WriteString("]")
+		return
+	}
+	sb.WriteString("SList [")
+	for i, x := range n.List {
+		if i > 0 {
+			sb.WriteString("; ")
+		}
+		x.CoqTerm(sb)
+	}
+	sb.WriteString("]")
+}
